@@ -25,10 +25,12 @@ const (
 	SubAckLost                     // blobs stored, error returned
 	SubBlock                       // block until the caller's context is cancelled
 	SubSeqErr                      // ErrTxIncorrectAccountSequence
+	SubCrashBefore                 // the submitting node dies before the DA layer sees the blobs
+	SubCrashAfter                  // the DA layer stores the blobs, the submitting node dies before the answer
 	numSubmitKinds
 )
 
-var submitKindNames = []string{"accept", "prefix", "timeout", "in-mempool", "too-big", "deadline", "generic", "ack-lost", "block", "seq-err"}
+var submitKindNames = []string{"accept", "prefix", "timeout", "in-mempool", "too-big", "deadline", "generic", "ack-lost", "block", "seq-err", "crash-before", "crash-after"}
 
 func (k SubmitKind) String() string { return submitKindNames[k] }
 
@@ -82,6 +84,7 @@ type DACall struct {
 	Outcome  string
 	IDs      [][]byte
 	At       time.Time
+	Probe    [2]uint64 // harness probe taken when the call arrived (e.g. persisted watermarks)
 }
 
 // SimDA is the simulated DA layer shared by all nodes of a world.
@@ -106,6 +109,8 @@ type SimDA struct {
 
 	Log   []DACall
 	Stats map[string]int
+	// Probe, if set, is evaluated at every submit call and stored in the call record.
+	Probe func() [2]uint64
 }
 
 func NewSimDA() *SimDA {
@@ -225,7 +230,7 @@ func (d *SimDA) NumCalls() int {
 	return len(d.Log)
 }
 
-func (d *SimDA) submit(ctx context.Context, by string, epoch int, blobs [][]byte) ([][]byte, error) {
+func (d *SimDA) submit(ctx context.Context, by string, epoch int, blobs [][]byte, fence *Fence) ([][]byte, error) {
 	if err := ctx.Err(); err != nil {
 		return nil, err
 	}
@@ -241,6 +246,9 @@ func (d *SimDA) submit(ctx context.Context, by string, epoch int, blobs [][]byte
 		cp[i] = append([]byte(nil), b...)
 	}
 	call := DACall{Op: "submit", By: by, Epoch: epoch, Blobs: cp, Outcome: out.Kind.String()}
+	if d.Probe != nil {
+		call.Probe = d.Probe()
+	}
 	store := func(n int) [][]byte {
 		h := d.cur + 1
 		ids := make([][]byte, 0, n)
@@ -315,6 +323,17 @@ func (d *SimDA) submit(ctx context.Context, by string, epoch int, blobs [][]byte
 		store(fit)
 		ids = nil
 		err = errors.New("sim: connection reset while waiting for submit response")
+	case SubCrashBefore:
+		d.logCall(call)
+		d.mu.Unlock()
+		fence.Kill()
+		return nil, ErrCrashed
+	case SubCrashAfter:
+		store(fit)
+		d.logCall(call)
+		d.mu.Unlock()
+		fence.Kill()
+		return nil, ErrCrashed
 	case SubBlock:
 		d.logCall(call)
 		d.mu.Unlock()
@@ -503,7 +522,7 @@ func (n *NodeDA) SubmitWithOptions(ctx context.Context, blobs []coreda.Blob, gas
 	if err := n.alive(); err != nil {
 		return nil, err
 	}
-	return n.da.submit(ctx, n.by, n.epoch, blobs)
+	return n.da.submit(ctx, n.by, n.epoch, blobs, n.fence)
 }
 
 func (n *NodeDA) Validate(ctx context.Context, ids []coreda.ID, proofs []coreda.Proof, namespace []byte) ([]bool, error) {
